@@ -514,6 +514,10 @@ class BuiltinMixin:
         sg = bool(self.pyconst(signed)) if signed is not None else False
         if not isinstance(b, BytesV):
             raise Unsupported("int.from_bytes of non-bytes")
+        if self.spec_mode and self.bytes_const_len(b) is None:
+            # inside a specification a field of a too-short buffer is undefined: the clause is not met / says nothing
+            yield st, RaiseV(self.exc("SpecUndefined", "field of a truncated buffer"))
+            return
         yield st, self.int_from_bytes(b, sg)
 
     def bi_bytes_fromhex(self, st, args, kwargs):
@@ -907,6 +911,37 @@ class BuiltinMixin:
     def sym_container_method(self, st, r, name, args, kwargs):
         raise Unsupported("symbolic container")
 
+    def keyed_dictcomp(self, e, st, it):
+        """{k: v for k, v in m.items() if cond} over a symbolic-key map (identity on kept entries only)"""
+        import ast
+        from .models import keyed_map_filter
+        g = e.generators[0]
+        if not (isinstance(e.key, ast.Name) and isinstance(e.value, ast.Name) and isinstance(g.target, ast.Tuple)
+                and [t.id for t in g.target.elts] == [e.key.id, e.value.id]):
+            raise Unsupported("dict comprehension over a keyed map must be an identity restriction")
+        saved = st.loc
+
+        def keep(s0, k, v, p):
+            s1 = s0.assume(p) if self.feasible(s0.pc, p) else None
+            if s1 is None:
+                yield s0, z3.BoolVal(False)
+                return
+            s1 = s1.set_local(e.key.id, k).set_local(e.value.id, v)
+            alts = [(s1, z3.BoolVal(True))]
+            for cnd in g.ifs:
+                nn = []
+                for s2, c0 in alts:
+                    for s3, cv in self.ev(cnd, s2):
+                        if isinstance(cv, RaiseV):
+                            raise Unsupported("condition of a keyed-map comprehension raises")
+                        nn.append((s3, z3.And(c0, self.truth(s3, cv))))
+                alts = nn
+            for s2, c in alts:
+                # drop the assumption `p` again: the entry may be absent, then it simply stays absent
+                yield s2._clone(pc=s0.pc + tuple(z3.Implies(p, x) for x in s2.pc[len(s0.pc):])).with_loc(saved), c
+
+        yield from keyed_map_filter(self, st, it.data["map"], keep)
+
     # ------------------------------------------------------------------ comprehensions
     def comprehension(self, e, st, kind):
         import ast
@@ -916,6 +951,9 @@ class BuiltinMixin:
         for s1, it in self.ev(g.iter, st):
             if isinstance(it, RaiseV):
                 yield s1, it
+                continue
+            if isinstance(it, Opaque) and it.typ == "keyed_items" and kind == "dict":
+                yield from self.keyed_dictcomp(e, s1, it)
                 continue
             items = self.iter_items(s1, it)
             if items is None:
